@@ -627,6 +627,10 @@ impl Debugger {
                                     }
                                 }
 
+                                // libraries loaded at startup are known now,
+                                // deferred breakpoints may point into them
+                                print_warns!(self.refresh_deferred());
+
                                 // ignore possible signals and watchpoints
                                 while self.step_over_breakpoint()?.is_some() {}
                                 continue;
